@@ -237,7 +237,11 @@ def _check_klatt(case):
         if missing:
             viols.append(Viol("open-hierarchy", f"{tag}: tiers missing after open: {missing[:3]}"))
     exp = [(k, lo, hi, list(E)) for k, lo, hi, E in d0]
-    for addr, fs in mods:
+    for mi, (addr, fs) in enumerate(mods):
+        if mi > 0:
+            # a save between two modifications of the SAME live KlattGrid must not freeze or disturb anything
+            call(kg.save, out)
+            n += 1
         keys = addressed_keys(addr, exp)
         if not keys:
             continue
